@@ -7,7 +7,7 @@ PROFILES = [('shadow', 2), ('ldslow', 1.5), ('branch', 1.5), ('loops', 1), ('ssa
 
 def run(ctx):
     return syscheck.run(
-        ctx, 'C03', ['C03', 'C01_mvp60', 'C01_mvp61', 'C01_mvp62', 'C12_mvp62', 'C01_mvp63_fwd'], PROFILES, S.PIPELINED, n_quick=120, n_thorough=1500,
+        ctx, 'C03', ['C03', 'C01_mvp60', 'C01_mvp61', 'C01_mvp62', 'C12_mvp62', 'C01_mvp63_fwd', 'C01_mvp70_fwd'], PROFILES, S.PIPELINED, n_quick=120, n_thorough=1500,
         assumptions=['a wrong-path effect is observed as a difference from the sequential final state (registers, memory), an error, a panic or a hang',
                      'MVP-6.0/6.1 write back wrong-path results by design (README); those cells are outside the domain and listed as known findings'],
         text_rule='branch-shadow programs: taken and not-taken conditional branches and jumps whose shadow holds register writes, stores, loads, '
